@@ -17,6 +17,19 @@ theorem run_append {u : Int} : ∀ (l1 l2 : List Label) (s : State),
     | none => rfl
     | some s1 => exact ih l2 s1
 
+theorem run_append_some {u : Int} {l1 l2 : List Label} {s s' : State} (h : run u s (l1 ++ l2) = some s') :
+    ∃ sm, run u s l1 = some sm ∧ run u sm l2 = some s' := by
+  rw [run_append] at h
+  cases h1 : run u s l1 with
+  | none => simp [h1] at h
+  | some sm => simp only [h1, Option.bind_some] at h; exact ⟨sm, rfl, h⟩
+
+theorem run_single {u : Int} {l : Label} {s s' : State} (h : run u s [l] = some s') : step u s l = some s' := by
+  simp only [run] at h
+  cases hs : step u s l with
+  | none => simp [hs] at h
+  | some s1 => simp only [hs, Option.some.injEq] at h; rw [h]
+
 theorem exists_tick_all_dead (u : Int) (now : Int) : ∀ (st : Status), ∃ d : Nat, ∀ e ∈ st, e.2.dead u (now + d) = true := by
   intro st
   induction st with
@@ -81,9 +94,9 @@ theorem run_keepalives {u : Int} (hu : 0 < u) : ∀ (js : List Identity) (s : St
     intro s hall
     obtain ⟨o, ho, hoa, hoe, hoL⟩ := hall j List.mem_cons_self
     have hstep : ∃ s1, step u s (.keepalive j 0) = some s1 := by
-      simp only [step, ho, hoa, hoe]; exact ⟨_, rfl⟩
+      simp only [step, ho, hoa]; exact ⟨_, rfl⟩
     obtain ⟨s1, h1⟩ := hstep
-    obtain ⟨o', ho', _, _, hnow1, _, hst1, hops1⟩ := keepalive_spec h1
+    obtain ⟨o', ho', _, hnow1, _, hst1, hops1⟩ := keepalive_spec h1
     rw [ho] at ho'; injection ho' with e; subst e
     have heq1 : OpsEq s s1 := opsEq_upd ho hops1 rfl rfl rfl rfl
     have hall1 : ∀ k ∈ rest, ∃ o, s1.ops k = some o ∧ o.alive = true ∧ o.exiting = false ∧ 1 ≤ o.lifetime := by
